@@ -68,13 +68,13 @@ class C03(Scenario):
                    "that reads it (either neighbour bin is legitimate there)", "string categories contain no None in "
                    "vector mode (np.unique cannot order None and str)"]
     expected_faults = ["batch_split", "weight_form"]
-    expected_probes = ["row_on_edge", "row_nonfinite", "zero_weight_row", "empty_batch", "fast_path_unit_weights", "template_used_before"]
+    expected_probes = ["row_on_edge", "row_nonfinite", "zero_weight_row", "empty_batch", "fast_path_unit_weights", "template_used_before", "interrupted_iadd_empty", "interrupted_pickle", "interrupted_copy"]
 
     def generate(self, rng, tier, profile):
         big = tier == "thorough"
         box = profile.split("-")[0]
         regime = "awkward" if profile.endswith("awkward") else "dyadic"
-        opts = specmod.merge_opts(depth=5 if big else 4, max_nodes=40 if big else 20, regime=regime, count_transform=0.06)
+        opts = specmod.merge_opts(depth=5 if big else 4, max_nodes=40 if big else 20, regime=regime, count_transform=0.06, count_same_transform=0.06)
         t = rng.fork("tree")
         sp = specmod.gen_spec(t, opts)
         k = 0
@@ -90,9 +90,11 @@ class C03(Scenario):
                 if d.chance(0.03):
                     r[d.pick(["x", "y"])] = d.pick([1e300, -1e300, 1e19, -1e19])
         kn = rng.fork("knobs")
-        wform = kn.pick(["one", "one", "scalar", "array", "array"])
+        wform = kn.pick(["one", "one", "scalar", "array", "array", "nearone"])
         if wform == "scalar":
             weights = kn.pick([0.5, 2.0, 1.0, 0.25, 3, 0.0])
+        elif wform == "nearone":
+            weights = [kn.pick(specmod.NEAR_ONE_WEIGHTS) for _ in recs]
         elif wform == "array":
             # beyond the statement's "non-negative weight array": entries <= 0 or NaN are ignored row-wise and must be
             # ignored alike by the vectorised path ("nan" is the JSON spelling; float("nan") reads it back)
@@ -102,8 +104,13 @@ class C03(Scenario):
         s = rng.fork("schedule")
         nb = s.randint(1, 5)
         cuts = sorted(s.randint(0, n) for _ in range(nb - 1))
+        steps = []
+        for c in cuts + [n]:
+            steps.append({"op": "batch", "upto": c})
+            if s.chance(0.2):
+                steps.append({"op": "interrupt", "how": s.pick(["iadd_empty", "iadd_zero", "add_empty", "empty_add", "pickle", "copy"])})
         return {"spec": sp, "records": [specmod.enc_record(r) for r in recs], "weights": weights, "box": box,
-                "steps": [{"op": "batch", "upto": c} for c in cuts] + [{"op": "batch", "upto": n}], "regime": regime,
+                "steps": steps, "regime": regime,
                 # the value templates of the sparse containers were used as aggregators themselves before (both trees alike)
                 "used_templates": kn.chance(0.15)}
 
@@ -114,7 +121,7 @@ class C03(Scenario):
         dy = case.get("regime", "dyadic") == "dyadic"
         n = len(w.records)
         wf = "one" if weights == "one" else ("array" if isinstance(weights, list) else "scalar")
-        R["shape"] = "%s|%s|%s|%s" % (specmod.shape_key(sp), box, wf, ",".join(str(s.get("upto")) for s in case["steps"]))
+        R["shape"] = "%s|%s|%s|%s" % (specmod.shape_key(sp), box, wf, ",".join(str(s.get("upto", s.get("how"))) for s in case["steps"]))
         if not any(s["p"] in specmod.HAS_Q for _, s in specmod.walk(sp)):
             R["nontrivial"] = False
             return
@@ -144,6 +151,33 @@ class C03(Scenario):
         nb = 0
         special = 0
         for si, st in enumerate(case["steps"]):
+            if st["op"] == "interrupt":
+                # between two batches both executors do the same content-preserving thing to their tree (a merge with an
+                # empty partial, a checkpoint by pickle, a copy): the next batch must land as if nothing had happened
+                import pickle
+
+                def interrupted(x, how=st["how"]):
+                    if how == "iadd_empty":
+                        x += w.build(0).value
+                        return x
+                    if how == "iadd_zero":
+                        x += x.zero()
+                        return x
+                    if how == "add_empty":
+                        return x + w.build(0).value
+                    if how == "empty_add":
+                        return w.build(0).value + x
+                    if how == "pickle":
+                        return pickle.loads(pickle.dumps(x))
+                    return x.copy()
+
+                r2, v2 = call(interrupted, row), call(interrupted, vec)
+                if r2.ok and v2.ok and hasattr(v2.value.fill, "numpy"):
+                    row, vec = r2.value, v2.value
+                    w.put(1, row)
+                    w.put(2, vec)
+                    w.bump("probe_interrupted_" + st["how"])
+                continue
             upto = max(done, min(n, st["upto"]))
             rows = list(range(done, upto))
             done = upto
